@@ -5,7 +5,9 @@
    Modelled as it is and NOT asserted either way: DeleteById through a plain child store of a parent entity
    that has no child data deletes the parent entity (delete_either_store holds for it as for any other id). *)
 From Coq Require Import List NArith Bool.
+From Coq Require Import Permutation Sorted.
 From Storage Require Import Base.Bytes Store.Model Store.UniqueProofs Store.WfSchema Store.ChildProofs.
+From Storage Require Import Store.Paging Store.PagingProofs Store.PagingChild.
 Import ListNotations.
 
 (* an entity created through the child store exists in both stores, and the parent's fields hold the values
@@ -108,3 +110,58 @@ Theorem child_create_duplicate_rejected : forall sch r c f ptr oc st evs i j v s
   exists k, op_create sch oc (st, evs) c i sys fv sv = Err k.
 Proof. exact child_create_duplicate_rejected_closed. Qed.
 Print Assumptions child_create_duplicate_rejected.
+
+(* ---- paged / sorted / counted queries (Store/Paging.v: the scan loops of boltz/query_scanners.go transcribed) ----
+
+   The three scan loops - sortingScanner.ScanCursor (non-id sort), uniqueIndexScanner.ScanCursor (id order, with the
+   total) and the paged cursor uniqueIndexScanner.Next (IterateIds) - compute the specification [query_page] for
+   EVERY schema, state, store, filter, sort field and direction, skip and limit (None = limit none) *)
+Theorem paged_scans_meet_spec : forall sch st s flt f asc (skip : nat) (limit : option nat),
+  sorting_scan sch st s flt f asc skip limit = query_page sch st s flt (Some (f, asc)) skip limit /\
+  unsorted_scan sch st s flt skip limit = query_page sch st s flt None skip limit /\
+  cursor_scan sch st s flt skip limit = fst (query_page sch st s flt None skip limit).
+Proof. exact paged_scans_meet_spec_closed. Qed.
+Print Assumptions paged_scans_meet_spec.
+
+(* ... where the total is the number of ids the store shows ([query_ids]) that satisfy the filter, and the page is
+   skip/limit of those ids in id order, or sorted by (field value, nil first, in the given direction; then id) *)
+Theorem query_page_meaning : forall sch st s flt srt (skip : nat) (limit : option nat),
+  let m := filter (q_match sch st s flt) (query_ids sch st s) in
+  snd (query_page sch st s flt srt skip limit) = length m /\
+  exists l, fst (query_page sch st s flt srt skip limit)
+            = match limit with None => skipn skip l | Some n => firstn n (skipn skip l) end /\
+            Permutation m l /\
+            match srt with
+            | None => l = m
+            | Some (f, asc) => StronglySorted (fun i j => row_leb sch st s f asc i j = true) l
+            end.
+Proof. exact query_page_meaning_closed. Qed.
+Print Assumptions query_page_meaning.
+
+Theorem query_order_total : forall sch st s f asc,
+  (forall i j, row_leb sch st s f asc i j = true \/ row_leb sch st s f asc j i = true) /\
+  (forall i j k, row_leb sch st s f asc i j = true -> row_leb sch st s f asc j k = true -> row_leb sch st s f asc i k = true) /\
+  (forall i j, row_leb sch st s f asc i j = true -> row_leb sch st s f asc j i = true -> i = j).
+Proof. exact row_leb_total_order_closed. Qed.
+Print Assumptions query_order_total.
+
+(* C15 for such queries, in EVERY state: through a plain child store every id of every page has child data, the
+   total counts only parent entities with child data (never the plain parents that match the filter too), and the
+   page has min(limit, total - skip) rows - no child row is lost to rows that are not shown; through an extended
+   child store page and total are those of the same query through the parent; the parent's range over all ids *)
+Theorem child_paged_query_only_children : forall sch r c st flt srt (skip : nat) (limit : option nat),
+  wf_child_b sch r c = true ->
+  (is_ext sch c = false ->
+     (forall i, In i (fst (query_page sch st c flt srt skip limit)) -> present sch st c i = true /\ q_match sch st c flt i = true) /\
+     snd (query_page sch st c flt srt skip limit)
+       = length (filter (fun i => present sch st c i && q_match sch st c flt i) (ids_of st r)) /\
+     length (fst (query_page sch st c flt srt skip limit))
+       = match limit with
+         | None => Nat.sub (snd (query_page sch st c flt srt skip limit)) skip
+         | Some n => Nat.min n (Nat.sub (snd (query_page sch st c flt srt skip limit)) skip)
+         end) /\
+  (is_ext sch c = true -> flt_not_declared sch c flt -> srt_not_declared sch c srt ->
+     query_page sch st c flt srt skip limit = query_page sch st r flt srt skip limit) /\
+  snd (query_page sch st r flt srt skip limit) = length (filter (q_match sch st r flt) (ids_of st r)).
+Proof. exact child_paged_query_only_children_closed. Qed.
+Print Assumptions child_paged_query_only_children.
